@@ -23,7 +23,7 @@ func init() {
 		Rule:       "Each run: one bufiox reader (io.Reader-backed over a simulated Source, or bytes-backed) over a stream with position-dependent content, 1..300 operations from {Next,Peek,Skip,ReadBinary,Release,negative counts} with boundary-valued sizes, a per-run source delivery profile (chunking, zero reads, stall, terminal error kind/offset, data with error), allocator mode and co-tenant; every result is compared with a cursor-over-bytes model, then the stream is drained.",
 		Components: realComponents,
 		Probes: []string{"reader_alloc_or_growth", "release_with_unread_tail", "release_with_nothing_buffered", "request_satisfied_after_100_or_more_reads",
-			"more_than_requested_with_error", "error_at_4096_multiple", "readbinary_larger_than_left", "failure_under_stall", "bytes_reader_growth"},
+			"more_than_requested_with_error", "error_at_4096_multiple", "readbinary_larger_than_left", "failure_under_stall", "bytes_reader_growth", "release_with_error_argument"},
 	})
 }
 
@@ -209,7 +209,11 @@ func (sc *readerScenario) step(st *sim.Stream, weights []int) {
 		}
 		m.ReadBinary(l, 0x5A)
 	case 4:
-		m.Release()
+		if st.Chance(1, 4) {
+			m.ReleaseWith(sim.ErrCustom)
+		} else {
+			m.Release()
+		}
 	case 5:
 		switch st.Choose(3) {
 		case 0:
@@ -242,6 +246,28 @@ func runC04(c *sim.Ctx) {
 	}
 	nops := 1 + cfg.Choose(maxOps)
 	st := c.Tape.S("ops")
+	if sc.src != nil && cfg.Chance(1, 10) {
+		// lockstep profile: a long-lived reader, hundreds of tiny requests, the peer delivers
+		// exactly what is asked for (with zero-byte reads in between): per-call state must
+		// not accumulate over the reader's lifetime
+		sc.src.Cfg.Mode = sim.ChunkExact
+		sc.src.Cfg.ZeroDen, sc.src.Cfg.ZeroMax = 2, 3
+		c.Count("cfg.lockstep_profile")
+		n := 200 + cfg.Choose(600)
+		for i := 0; i < n && m.pos < m.avail; i++ {
+			sz := 1 + st.Choose(8)
+			switch st.Pick(6, 1, 1, 1) {
+			case 0:
+				m.Next(sz)
+			case 1:
+				m.Skip(sz)
+			case 2:
+				m.ReadBinary(sz, 0x33)
+			case 3:
+				m.Release()
+			}
+		}
+	}
 	for i := 0; i < nops; i++ {
 		sc.step(st, weights)
 		co.step()
